@@ -109,6 +109,14 @@ def load_ast(tu_text, defines):
     """returns the TranslationUnitDecl dict for `tu_text` compiled with
     `defines` against the current /repo tree."""
     os.makedirs(os.path.join(BUILD, 'cache'), exist_ok=True)
+    if REPO != '/repo':
+        # seeded-change testing runs the same units against a scratch worktree (VERIF_REPO): inline the
+        # instantiation-forcing TUs and retarget every "/repo/..." include
+        def inline(m):
+            with open(m.group(1)) as fh:
+                return fh.read()
+        tu_text = re.sub(r'#include "(%s/contracts/tu/[^"]+)"' % re.escape(VERIF), inline, tu_text)
+        tu_text = tu_text.replace('"/repo/', '"%s/' % REPO)
     key = hashlib.sha1((tu_text + '\0' + ' '.join(defines) + '\0' + tree_hash()).encode()).hexdigest()[:20]
     pk = os.path.join(BUILD, 'cache', 'ast_%s.pickle' % key)
     if os.path.exists(pk):
